@@ -9,7 +9,7 @@
 // variables : v0..v3 (int 32)  v4 (int 8)  v5 (int 16)  v6 (int 64)   b0..b2 (bool)
 //             every statement is well typed in the sense of crab/cfg/type_checker.hpp: the variables
 //             of one linear expression / constraint / arithmetic statement have the same type
-// request : (dom2.hist <name> (params (<key> <value>) ...) (ops <op> ...))
+// request : (dom2.hist <name> (params (<key> <value>) ...) (ops <op> ...) [(probes <cst> ...)])
 //   params: strings of crab_domain_params::set_param, applied to crab_domain_params_man::get()
 //           after a reset to the defaults (they are global: one setting per history)
 //   <op> ::= (top d) | (bot d) | (copy d s) | (assign d x <lin>) | (wassign d x <lin>)
@@ -29,7 +29,14 @@
 //   <dj> ::= (dj true) | (dj false) | (dj err) | (dj (cs <cst>...) ...)     to_disjunctive_linear_constraint_system
 //   <extra> ::= (ent <0|1>) after entails ; (sub <itv>) = operator[](x) after query
 //   followed by (leq (i j b) ...) for all ordered pairs of the final pool, (lat ...) flags,
-//   (probe (j b neg <isbot> <istop> (iv ...) (cs ...)) ...) = what a copy of final value #j says after assume_bool(b, neg).
+//   (probe (j b neg <isbot> <istop> (iv ...) (cs ...)) ...) = what a copy of final value #j says after assume_bool(b, neg),
+//   (nprobe (j k <isbot> <istop> (iv ...) (cs ...)) ...) = the same after += the k-th constraint of (probes ...).
+//   the monotonicity checks of the driver use the two probe lists: if i <= j was answered yes, the witnesses
+//   of #i that satisfy the probe must satisfy what probe(#j) says (this reaches information a value holds
+//   without exporting it: recorded implications of flat_boolean_numerical_domain, disjuncts, partitions).
+// environment (development): DOM2_STAT=1 generates `dom2.stat` heads (the driver answers SKIP stat <figures>:
+//   witness checks, live assume_bool / cast / entails-yes counts); DOM2_TRACE=1 prints every value after every
+//   operation on crab::outs().
 #include "common.hpp"
 #include "crab_lang.hpp"
 
@@ -455,6 +462,20 @@ std::string eval(const Sx &q) {
         out << " (" << j << " b" << k << " " << neg << " " << dump(c) << ")";
       }
   out << ")";
+  // numeric probes (optional 5th element of the request): the same after += cst
+  if (q.size() > 4) {
+    const Sx &pr = q[4];
+    out << " (nprobe";
+    for (unsigned j = 0; j < NP; j++)
+      for (size_t k = 1; k < pr.size(); k++) {
+        Dom c(pool[j]);
+        linear_constraint_system<z_number, varname_t> sys;
+        sys += parse_cst(pr[k]);
+        c += sys;
+        out << " (" << j << " " << (k - 1) << " " << dump(c) << ")";
+      }
+    out << ")";
+  }
   return out.str();
 }
 
@@ -586,8 +607,7 @@ std::string gen_modify(Rng &r, unsigned d, unsigned x, bool big_ok) {
     if (g.vs.size() > 1) { // x receives a renamed / expanded other variable
       unsigned y = gpick(r, g);
       while (y == x) y = gpick(r, g);
-      // FixedTVPI does not implement rename (it only warns): not generated there
-      o << " (forget " << d << " " << V(x) << ") (" << (NO_EXPAND || (r.coin() && VDOM != 13 && VDOM != 53) ? "rename1 " : "expand ") << d << " " << V(y) << " " << V(x) << ")";
+      o << " (forget " << d << " " << V(x) << ") (" << (NO_EXPAND || r.coin() ? "rename1 " : "expand ") << d << " " << V(y) << " " << V(x) << ")";
     } else o << " (assign " << d << " " << V(x) << " (lin " << r.range(-9, 9) << "))";
     break;
   }
@@ -769,8 +789,7 @@ std::string gen(Rng &r, const Args &a) {
       o << ")";
     } else if (k < 62) {
       // the target must not be constrained: forget it first (the API requires a fresh name)
-      // FixedTVPI does not implement rename (it only warns): not generated there
-      bool ren = NO_EXPAND || ((VDOM != 13 && VDOM != 53) && r.coin());
+      bool ren = NO_EXPAND || r.coin();
       if (r.below(4) == 0) { // Booleans
         unsigned x = r.below(NB), y = (x + 1 + r.below(NB - 1)) % NB;
         o << " (forget " << d << " " << B(y) << ") (" << (ren ? "rename1 " : "expand ") << d << " " << B(x) << " " << B(y) << ")";
@@ -837,6 +856,20 @@ std::string gen(Rng &r, const Args &a) {
 #else
     else o << " (query " << d << " " << vname(r.below(NV + NB)) << ")";
 #endif
+  }
+  o << ")";
+  // numeric probes: constraints around the values of the seeding phase (they fall into the holes of
+  // disjunctive values)
+  o << " (probes";
+  for (unsigned i = 0; i < 3; i++) {
+    Grp g = r.below(4) == 0 ? pick_group(r) : Grp{{0, 1, 2, 3}};
+    unsigned v = gpick(r, g);
+    switch (r.below(4)) {
+    case 0: o << " (eq (lin " << r.range(-22, 13) << " (1 v" << v << ")))"; break;
+    case 1: { int64_t c = r.range(-14, 22); o << " (" << (r.coin() ? "le" : "lt") << " (lin " << -c << " (1 v" << v << ")))"; break; }
+    case 2: { int64_t c = r.range(-14, 22); o << " (le (lin " << c << " (-1 v" << v << ")))"; break; }
+    default: o << " " << gen_cst(r, g, big_ok, nullptr, true); break;
+    }
   }
   o << "))";
   std::string s = o.str();
